@@ -51,7 +51,7 @@ pub struct Plan {
 static CURRENT_RUN: AtomicU64 = AtomicU64::new(u64::MAX);
 static CURRENT_SINCE_MS: AtomicU64 = AtomicU64::new(0);
 
-pub const HANG_LIMIT_S: u64 = 120;
+pub const HANG_LIMIT_S: u64 = 300;
 
 pub fn sample_of(s: &Scenario, ctx_trace: Option<&Vec<String>>) -> serde_json::Value {
     let mut v = serde_json::json!({
